@@ -14,10 +14,11 @@ open IrisVerif.Dates (Err R)
 
 /-! ### CSV grid codec
 
-Full statement (the three `csv_roundtrip_partial_*` theorems below are its proved components; what is missing is the
-assembly through `zipRowsN` / `decodeBlock` -- slicing the zipped rows back into the blocks' own rows, and `setData` on
-consecutive periods -- which did not get done in the time available and is covered by the exact correspondence run on
-real files only):
+Full statement (the `csv_roundtrip_partial_*` theorems below are its proved components: the block iterator on the first row
+of the grid actually exported, the column iterator on each block's own slice of the concatenated header rows, `trim` on the
+padded rows; what is missing is the same locality for the *data* rows through `zipRowsN` (date column and cell slices of
+`decodeBlock`), `setData` on consecutive periods, and `dictOfList` on distinct names -- covered by the exact correspondence
+run on real files only):
 
   theorem csv_roundtrip (c : Codec V) (d : Bool) (db : Box (Ser V) V)
       (hdate : ∀ f n, f ≠ .U → f ≠ .W → c.parseDate f (c.fmtDate f n) = some n ∧ c.fmtDate f n ≠ "")
